@@ -37,7 +37,7 @@ use crate::specio;
 use crate::util::*;
 use std::collections::BTreeSet;
 
-fn case_text(c: &EmitCase, prior: &str) -> String { format!("(case {} (prior {}) (doc {}))", c.label, quote(prior), quote(&serde_json::to_string(&c.doc).unwrap_or_default().chars().take(6000).collect::<String>())) }
+fn case_text(c: &EmitCase, prior: &str) -> String { format!("(case {} (prior {}) (doc {}))", c.label, quote(prior), quote(&serde_json::to_string(&c.doc).unwrap_or_default().chars().take(60000).collect::<String>())) }
 
 /// service names that are words of the Rust language or of the generated code (still "ASCII alphanumeric words starting with a letter")
 pub const RISKY_SERVICE_NAMES: &[&str] = &["Type", "Self", "Crate", "Async Api", "Box", "Fluent Request", "Option"];
